@@ -508,8 +508,9 @@ def conformance_norm(ctx, name, names, pv, hyps, val, dfdx, dfdrho, dfdinh, tang
 SLMODES = ["npa", "nst", "np", "ns"]
 
 
-def unit_normlist(slmode):
+def unit_normlist(slmode, classes=None):
     def run(ctx):
+        NORMS = list(classes) if classes is not None else list(globals()["NORMS"])
         it = ctx.interp
         nmod = it.load_module(NMOD)
         L = nmod.ns["FeatNormalizerList"]
@@ -582,9 +583,10 @@ def unit_normlist(slmode):
                         for i in range(nfeat):
                             expect = expect + G0[0, i, s] * tm.diff(XNs[0, i, s], X0[0, j, s])
                         ctx.equal("transpose-of-jacobian[%s,j=%d,s=%d]#%d.%d" % (slmode, j, s, vi, bi), HH, DX[0, j, s], expect, fq[:2] + fq[3:4],
-                                  replay=make_list_replay(slmode, nsl))
-                ctx.canary("bwd.canary-no-rho-path[%s]" % slmode, HH, DX[0, 0, 0],
-                           G0[0, 0, 0] * tm.diff(XNs[0, 0, 0], X0[0, 0, 0]))
+                                  replay=make_list_replay(slmode, nsl, classes))
+                if classes is None:
+                    ctx.canary("bwd.canary-no-rho-path[%s]" % slmode, HH, DX[0, 0, 0],
+                               G0[0, 0, 0] * tm.diff(XNs[0, 0, 0], X0[0, 0, 0]))
             # forward (tangent) mode: shapes (nfeat, NS)
             X2 = X0[0].copy()
             D2 = sym_array("D", (nfeat, NS))
@@ -601,18 +603,19 @@ def unit_normlist(slmode):
                         for j in range(nfeat):
                             expect = expect + tm.diff(XNs[0, i, s], X0[0, j, s]) * D2[j, s]
                         ctx.equal("jacobian-times-tangent[%s,i=%d,s=%d]#%d.%d" % (slmode, i, s, vi, ti), HH, tval[i, s], expect, [fq[0], fq[2], fq[4]],
-                                  replay=make_list_replay(slmode, nsl))
+                                  replay=make_list_replay(slmode, nsl, classes))
                 ctx.holds("tangent.frame#%d.%d" % (vi, ti), same_elements(X2, X0[0]) and same_elements(D2c, D2), "", fq[2:3])
         ctx.assume("transposition of forward- and reverse-mode list routines follows from both being proved against the same Jacobian (lemma <J t, g> = <t, J^T g>)")
-        conformance_list(ctx, slmode, nsl, vpaths, bpaths, X0, G0, hyps, nfeat, qvars)
+        if classes is None:
+            conformance_list(ctx, slmode, nsl, vpaths, bpaths, X0, G0, hyps, nfeat, qvars)
     return run
 
 
-def native_list(slmode, nsl, fe, cutoff):
+def native_list(slmode, nsl, fe, cutoff, classes=None):
     import ciderpress.dft.feat_normalizer as fn
     norms = [None] * nsl
     k = 0
-    for name in NORMS:
+    for name in (classes if classes is not None else NORMS):
         cls = getattr(fn, name)
         import inspect
         names = list(inspect.signature(cls.__init__).parameters)[1:]
@@ -622,11 +625,11 @@ def native_list(slmode, nsl, fe, cutoff):
     return fn.FeatNormalizerList(norms, slmode, cutoff=cutoff)
 
 
-def make_list_replay(slmode, nsl):
+def make_list_replay(slmode, nsl, classes=None):
     def replay(wit):
         fe = env_floats(wit or {})
         cutoff = fe.get("cutoff", 1e-10)
-        lst = native_list(slmode, nsl, fe, cutoff)
+        lst = native_list(slmode, nsl, fe, cutoff, classes)
         nfeat = lst.nfeat
         X = np.array([[[fe.get("X_0_%d_%d" % (i, s), 0.5 + 0.1 * i + 0.07 * s) for s in range(NS)] for i in range(nfeat)]])
         G = np.ones((1, nfeat, NS))
@@ -686,6 +689,12 @@ def units():
     u.append(("featlist", unit_featlist))
     u += [("norm/" + n, unit_norm(n)) for n in NORMS]
     u += [("normlist/" + m, unit_normlist(m)) for m in SLMODES]
+    # lists that hold only some of the normaliser classes (a reverse pass that decides what to route by looking at the classes present must get every
+    # combination right): each class alone and the pairs without a GeneralNormalizer
+    for sub in (["InhomogeneityNormalizer"], ["DensityNormalizer"], ["GeneralNormalizer"], ["ConstantNormalizer", "InhomogeneityNormalizer"],
+                ["DensityNormalizer", "InhomogeneityNormalizer"], ["ConstantNormalizer", "DensityNormalizer"]):
+        for m in SLMODES:
+            u.append(("normlist-subset/%s/%s" % ("+".join(x[:4] for x in sub), m), unit_normlist(m, sub)))
     return u
 
 
